@@ -49,7 +49,7 @@ Proof. vm_compute. split; reflexivity. Qed.
 
 (* ---- budget half: theorems over Model/VM.v (validated against the real VM by K2 incl. exact NumOpCount) ---- *)
 From Coq Require Import ZArith.
-From DS Require Import Model.Value Model.VM Model.CodeWf Proofs.VMSafety.
+From DS Require Import Model.Value Model.VM Model.CodeWf Proofs.VMSafety Proofs.VMDepth.
 Open Scope Z_scope.
 
 (* numOpCountAdd: never lowers the counter, never wraps (saturates), reports "over" exactly when a positive limit is exceeded *)
@@ -70,13 +70,26 @@ Theorem C07_counter_never_lowered : forall E L, cfg_op_limit (e_cfg E) = L -> 0 
   forall fuel m m', run_pre m -> exec fuel E m = Fin m' -> ops_of (m_w m) <= ops_of (m_w m') <= MaxInt64.
 Proof. exact Proofs.VMSafety.C07_counter_never_lowered. Qed.
 
-(* once the counter has reached the limit the next instruction is not executed: EBudget *)
+(* recursion is bounded by the budget: every sub-VM (script function call, computed value) starts at least 101 above
+   its caller's start counter (one dispatch + the 100 charged for the call) and at most at L, so the nesting depth of
+   sub-VM activations - measured by the instrumented run exec_depth, which computes exactly exec - is at most (L - c0)/101.
+   The hypothesis on the context chain (every calling context's counter within the budget) holds for the machine that
+   `run` starts and is re-established when a run finishes; without it the statement is false (Proofs/VMDepth.v
+   C07_call_depth_needs_int64_chain: a calling context with a counter beyond int64 would restart a callee near 0). *)
+Theorem C07_call_depth_bounded : forall E L, cfg_op_limit (e_cfg E) = L -> 0 < L <= MaxInt64 - 100 ->
+  forall fuel m, w_chain (m_w m) <> nil -> dice_ok (m_fr m) -> chain_in_budget L (m_w m) ->
+  fst (exec_depth fuel E m) = exec fuel E m /\
+  Z.of_nat (snd (exec_depth fuel E m)) <= Z.max 0 ((L - ops_of (m_w m)) / 101) /\
+  (forall m', exec fuel E m = Fin m' -> chain_in_budget L (m_w m')).
+Proof. exact Proofs.VMDepth.C07_call_depth_exact. Qed.
 
 Print Assumptions C07_ops_add_spec.
 Print Assumptions C07_budget_bounds_dispatches.
 Print Assumptions C07_counter_never_lowered.
+Print Assumptions C07_call_depth_bounded.
 (* further budget theorems proved in Proofs/VMSafety.v and re-checked with it: C07_dispatch_counts,
    C07_budget_error_once_exceeded, C07_dice_batch_charged_before_rolling, C07_dice_over_budget_no_roll,
    C07_coc_batch_charged_before_rolling, C07_wod_rounds_charged, C07_dc_rounds_charged,
    C07_wod_dc_rounds_charged(_step), C07_call_costs_100, C07_computed_costs_100, C07_run_dispatch_bound;
-   not proved: a call-depth bound L/100+1 (informal consequence of the +100 charge and monotonicity). *)
+   Proofs/VMDepth.v: exec_depth_fst, C07_call_depth_bounded (chain within int64: bound + 1), C07_call_depth_bounded_100,
+   C07_run_call_depth (the machine `run` starts: depth <= L/101), C07_callee_start_counter, examples attaining the bound. *)
